@@ -85,10 +85,9 @@ def script_limit(ex, mutate=None):
 
 
 def canary_limit(ex):
-    """the limit is allowed to return one request more: must be refuted"""
+    """the negation of the count clause must be refuted on every path"""
     def mut(I, post, out_a, out_s, limit):
-        return {'canary_count': z3.Implies(z3.Not(limit.none),
-                                           out_a.len < limit.t)}
+        return {'canary_count': z3.Not(post['count'])}
     script_limit(ex, mut)
 
 
